@@ -266,6 +266,8 @@ def main(argv=None):
     for name, st in results.items():
         for inc in st["inconclusive"]:
             inconclusive.append("%s: %s" % (name, inc))
+        for he in sorted(set(st.get("harness_errors", []))):
+            harness_errors.append("%s: %s" % (name, he))
         for v in st["violations"]:
             if v.get("values") is None:
                 inconclusive.append("%s: violation without model: %s" % (name, v["label"]))
